@@ -111,9 +111,12 @@ var c20Blocks = []string{
 	"# H1 *em*\n", "###### H6\n", "Setext\n======\n", "para one\nsoft break\n", "```go\nx := 1 < 2 && y\n```\n", "```\nplain {{ x }}\n```\n", "    indented <b>\n",
 	"> quote\n> > nested\n", "- a\n- b\n", "1. one\n2. two\n", "3. three\n4. four\n", "- loose\n\n- items\n", "- outer\n  - inner\n", "- [ ] todo\n- [x] done\n",
 	"| a | b |\n|:-:|---|\n| 1 | 2 |\n", "---\n", "0. zero\n1. one\n", "<div>\nhtml block\n</div>\n", "<!-- comment block -->\n", "<pre>\nraw\n\n*pre*\n</pre>\n", "<div class=\"raw\">html *not md*</div>\n", "text with `code` and [link](http://l \"T\") and ![img](i.png)\n", "line  \nhard break\n",
+	// code blocks: tabs that straddle the indentation column inside containers, a document that ends inside a code block
+	"- foo\n\n\t\tbar\n\t\tbaz\n", ">\t\tfoo\n", "1. a\n\n   ```\n\tx\n   ```\n", "\tcode\twith tabs\n", "- a\n\n      code in item\n", "```\nfoo", "para\n\n    last line", "~~~go\n\tx := 1\n~~~\n",
 }
 
-var allConstructs = strings.Join(c20Blocks, "\n") + "\nauto <http://a.b> and ~~del~~ and **strong** <i>raw</i>\n"
+// (the inline constructs come first: some block samples end inside an unterminated code block)
+var allConstructs = "auto <http://a.b> and ~~del~~ and **strong** <i>raw</i>\n\n" + strings.Join(c20Blocks, "\n")
 
 func mdRender(content fs.FS, src string) (string, error) {
 	var buf bytes.Buffer
